@@ -73,7 +73,7 @@ def bounds(tier):
         "alphabet": CALLS,
         "families(kind, N, max sequence length, fault kinds, timeout passed to healthy waits, both gate orders)":
             [[k, N, ln, kinds if kinds is not None else "-", htos, both] for k, N, ln, kinds, htos, both, _ in PLAN[tier]],
-        "single": "every dispatched reset/step/call/set_attr command of the sequence (k-th occurrence) x every worker x fault kinds; sleepers with and without a 0.15 s timeout",
+        "single": "every dispatched reset/step/call/set_attr command of the sequence (k-th occurrence) x every worker x fault kinds; sleepers with a 0.15 s timeout, with timeout 0 (a poll: must report a timeout at once) and without",
         "pair": "two faults in two different workers, all ordered pairs of firing points (same point included) x kind pairs; pairs whose second point follows a SIGKILL are not enumerated",
         "every trace ends with": "close()",
         "gate order": "reverse; identity as well for step faults (and for every trace with a step where both gate orders = true)",
@@ -218,12 +218,12 @@ def model_walk(N, seq, plan, sleep_mode, healthy_to):
         sleeper_active = any(f["kind"] == "sleep" for f in m.active)
         if typ == "wait":
             if m.st == cmd and not m.closed and sleeper_active:
-                to = T_OUT if sleep_mode == "timeout" else None
+                to = T_OUT if sleep_mode == "timeout" else 0.0 if sleep_mode == "timeout0" else None
             else:
                 to = healthy_to
         elif name == "close":
             if not m.closed and sleeper_active and m.st in ("reset", "step", "call"):
-                to = T_OUT if sleep_mode == "timeout" else None
+                to = T_OUT if sleep_mode == "timeout" else 0.0 if sleep_mode == "timeout0" else None
         exp, cls = m.expect(name, to)
         if cls == "legal" and typ in ("async", "sync") and not m.closed and m.st == "default":
             nxt = (list(seq) + ["close"])[idx + 1] if idx + 1 <= len(seq) else "end"
@@ -295,7 +295,7 @@ def gen_traces(part):
                 for j in range(N):
                     for kind in kinds:
                         orders = ["id", "rev"] if (cmd == "step" or (both_orders and has_step(seq))) else ["rev"]
-                        for sm in (("timeout", "wait") if kind == "sleep" else ("wait",)):
+                        for sm in (("timeout", "timeout0", "wait") if kind == "sleep" else ("wait",)):
                             for order in orders:
                                 add(seq, [{"env": j, "cmd": cmd, "occ": occ, "kind": kind}], sm, None, order)
         elif part["kind"] == "pair":
